@@ -28,6 +28,7 @@ type item struct {
 	marker string   // expected marker text (present token / free-floating / leaf value), or ""
 	absent []string // for an absent token slot: the lexemes it may be replaced by (nothing is always allowed)
 	free   bool     // absent slot with free text (labels): any identifier-like text allowed
+	must   bool     // a missing separator between two list items: "nothing" would fuse the items
 	slot   string
 }
 
@@ -92,7 +93,9 @@ func pattern(n ast.Vertex) []item {
 						name = "SeparatorTkns"
 					}
 					if f.Seps >= 0 {
-						out = append(out, absentItem(s.Name, name))
+						it := absentItem(s.Name, name)
+						it.must = true
+						out = append(out, it)
 					}
 				}
 			}
@@ -155,13 +158,18 @@ func squash(s string) string {
 // gapOK: can gap be produced by replacing each of the absent slots, in order, by one of its lexemes or by nothing?
 func gapOK(gap string, absent []item) bool {
 	if gap == "" {
+		for _, a := range absent {
+			if a.must {
+				return false
+			}
+		}
 		return true
 	}
 	if len(absent) == 0 {
 		return false
 	}
 	a := absent[0]
-	if gapOK(gap, absent[1:]) {
+	if !a.must && gapOK(gap, absent[1:]) {
 		return true
 	}
 	if a.free {
